@@ -161,9 +161,12 @@ CLAIMS = {
           "integer results stay in the i32 range, EVERY native call on values or void is panic-free (wrong types, "
           "arity, void, casts surface as errors), evaluation-stack pops never panic, an error raised by a step is "
           "recorded, stops the story and is reported (Err without handler, callback with one), and resetting after "
-          "an error gives exactly the fresh story. NOT proved (partial): panic-freedom of the whole interpreter for "
-          "every compiler-accepted program — the model keeps ~39 panic sites mirroring Rust unwraps that are "
-          "unreachable only under invariants of compiler output; these are decided by the oracle: fault-prone "
+          "an error gives exactly the fresh story; and step_panic_sites: a step of the interpreter model can end in a "
+          "panic only at one of 8 named sites (9 for a whole continue step), each an unwrap of the Rust that an "
+          "invariant of loaded trees / call stacks makes unreachable (listed with its invariant in corpus/c15/SITES.md) "
+          "— after 35 former panic sites were turned into story errors in /repo and in the model. NOT proved "
+          "(partial): that those 9 residual sites are unreachable (the invariants are argued, not proved); decided by "
+          "the oracle: hand-written documents that used to panic, fault-prone "
           "expression trees, fault-prone generated programs, reproducers of past panics and token-level mutants of "
           "the conformance corpus under random histories, on debug and release builds (no panic, faults reported, "
           "reset = fresh, profiles agree), and by the tie (a model panic site reached = a code panic)."),
@@ -178,8 +181,9 @@ CLAIMS = {
           "loop for ever) yields the same log of lines, tags, choices, end status and final globals; for 105 pairs "
           "the exploration is complete, i.e. the theorem covers all choice paths. The theorems are closed by "
           "native_decide (declared in the trusted base). The Intercept (2 x 160 kB, depth 4) has no theorem and is "
-          "decided by oracle + tie only; 8 pairs that genuinely differ are known findings (compiler deviations in "
-          "choice text / glue after a divert), each reported per file. Tie: the same exploration on the real runtime "
+          "decided by oracle + tie only (depth 6; 8 in the thorough tier). The 9 pairs that differed when the check "
+          "was first run (compiler deviations in choice text, glue after a divert, label scope, a lost line break) "
+          "have been repaired in /repo; every pair now agrees. Tie: the same exploration on the real runtime "
           "(branching by save/load) equals the model's log for both documents. Oracle: real logs of the two "
           "documents are equal."),
     design_ref="DESIGN.md section 5 C05",
@@ -259,11 +263,27 @@ CLAIMS = {
           "ahead is undone and runs again, once, from that state (continueSingleStep_rewind, stepLoop_newline, "
           "lookahead_undone). NOT proved (no model of the compiler; partial): that compile+play equals the reference "
           "interpreter for every program — decided by the oracle: generated core programs x ALL choice sequences to "
-          "depth 4 (5 in the thorough tier), real transcript vs reference transcript, disagreements minimised; 18 "
-          "reproducers of 16 known compiler deviations are replayed as known findings."),
+          "depth 4 (5 in the thorough tier), real transcript vs reference transcript, disagreements minimised; the 18 "
+          "reproducers of the 16 compiler deviations found this way (all repaired in /repo since) are replayed and must agree."),
     design_ref="DESIGN.md section 5 C01",
-    note="The generator stays away from the shapes of the known findings (gen/srcgen.py RESTRICTED).",
+    note="Core Ink as covered by Ink/Source.lean; lists, floats, CONST, INCLUDE, EXTERNAL, variable diverts, ref parameters are outside it.",
     technique="Lean 4 reference semantics + theorems about it and about the look-ahead (partial) + exhaustive-path differential oracle"),
+ "C15": dict(
+    category="proof",
+    text=("Proved on the loader model: for EVERY JSON value (and unparsable text) the story loader ends in ok or an "
+          "error, never a panic (loadStory_no_panic; error kinds BadJson or the model's own Fuel / Unsupported); the "
+          "same for the save loader (loadState_no_panic, bottom-up over all readers); a load touches nothing but the "
+          "story state, and whatever a (failed or successful) load did, a reset afterwards gives exactly the fresh "
+          "story; the JSON parser accepts a document only as one value followed by white space (parse_total). Tie: the "
+          "model's verdict on every mutated document equals the default loader's. Oracle: structural / textual "
+          "mutations, truncation at every byte, nesting bombs and token damage of story documents and of saves "
+          "(multi-flow saves, targeted key mutations), under both loaders: no panic, abort, stack overflow or "
+          "timeout; after a failed load_state, reset makes the story play like a fresh one. One known finding: a "
+          "document whose global declarations never terminate makes Story::new run for ever (recognised by the "
+          "verif-hooks step budget)."),
+    design_ref="DESIGN.md section 5 C15",
+    note="Inputs are valid Unicode text. The streaming loader is exercised by the oracle only (its token level is modelled in C14).",
+    technique="Lean 4 no-panic theorems over the loader models + verdict tie + mutation oracle on both loaders"),
 }
 
 REASONS_PENDING = "check not built yet in this revision of /verif (see DESIGN.md section 9.1 for the order of work)"
